@@ -61,9 +61,9 @@ def pdf_params(S, mu):
     return L, nu, lb
 
 
-def mk_pdf(m, rng, R, D, diag=False, give=0, scale=1.0):
-    """give: 0 = Sigma only, 1 = Sigma+Lambda, 2 = Sigma+Lambda+ln_det_Sigma"""
-    S = gen.pd_batch(rng, R, D, diag=diag); mu = gen.vec_batch(rng, R, D, scale)
+def mk_pdf(m, rng, R, D, diag=False, give=0, scale=1.0, cov_scale=1.0):
+    """give: 0 = Sigma only, 1 = Sigma+Lambda, 2 = Sigma+Lambda+ln_det_Sigma; cov_scale multiplies the covariance"""
+    S = cov_scale * gen.pd_batch(rng, R, D, diag=diag); mu = np.sqrt(cov_scale) * gen.vec_batch(rng, R, D, scale)
     L, nu, lb = pdf_params(S, mu)
     kw = {}
     if give >= 1:
@@ -131,10 +131,11 @@ def mk_cond(m, rng, cls, R, Dy, Dx, give=None, b_none=False, tag=""):
     elif "giveA" in tag:
         give = "all"
     b_none = b_none or ("bnone" in tag)
+    cov_scale = 1e-6 if "hd" in tag else 1.0     # '/hd': high dimension with uniformly small variances (well conditioned)
     if give is None:
         give = ("Sigma", "Lambda", "all", "Sigma")[int(rng.integers(0, 4))]
     diag = cls in ("diag", "identitydiag")
-    S = gen.pd_batch(rng, R, Dy, diag=diag)
+    S = cov_scale * gen.pd_batch(rng, R, Dy, diag=diag)
     L = np.linalg.inv(S)
     ld = np.linalg.slogdet(S)[1]
     if cls in ("identity", "identitydiag"):
